@@ -702,3 +702,134 @@ func checkC04AddOptionSmoke(c *Ctx, n int) {
 		c.Check("options-added-by-the-program-never-crash-the-parser", got == want, "C04:addoption-smoke", in, got, want)
 	}
 }
+
+// exEndpointV: a value type that completes AND validates — it offers the stem `alpha:` besides full host:port values,
+// and as an option's argument only host:port with a port is valid
+type exEndpointV string
+
+func (e *exEndpointV) Complete(match string) []flags.Completion {
+	var out []flags.Completion
+	for _, it := range []string{"alpha:", "alpha:443", "alpha:80", "-local:1", "beta:22"} {
+		if strings.HasPrefix(it, match) {
+			out = append(out, flags.Completion{Item: it})
+		}
+	}
+	return out
+}
+
+func (e *exEndpointV) IsValidValue(v string) error {
+	if k := strings.Index(v, ":"); k < 0 || k == len(v)-1 {
+		return fmt.Errorf("endpoint needs host:port")
+	}
+	return nil
+}
+
+// checkC18ValidatedCompleter: a partial value of an option whose type provides completions yields exactly that
+// type's completions in every spelling — also when the type validates values too (an offered stem need not be a
+// valid value yet) and when an item starts with a dash.
+func checkC18ValidatedCompleter(c *Ctx, n int) {
+	r := c.Rng
+	for i := 0; i < n; i++ {
+		var o struct {
+			V  bool        `short:"v"`
+			Ep exEndpointV `short:"e" long:"endpoint"`
+		}
+		partial := []string{"al", "alpha:", "", "-l", "b", "alpha:4"}[r.Intn(6)]
+		forms := map[string][]string{
+			"--name V": {"--endpoint", partial}, "--name=V": {"--endpoint=" + partial}, "-x V": {"-e", partial},
+			"-xV": {"-e" + partial}, "-x=V": {"-e=" + partial}, "-ax V": {"-ve", partial}}
+		var want []string
+		for _, it := range []string{"-local:1", "alpha:", "alpha:443", "alpha:80", "beta:22"} {
+			if strings.HasPrefix(it, partial) {
+				want = append(want, it)
+			}
+		}
+		prefix := map[string]string{"--name V": "", "--name=V": "--endpoint=", "-x V": "", "-xV": "-e", "-x=V": "-e=", "-ax V": ""}
+		for label, args := range forms {
+			if label == "-xV" && partial == "" {
+				continue // (-e alone is the option without a value)
+			}
+			var items []string
+			pan := safe(func() {
+				os.Setenv("GO_FLAGS_COMPLETION", "1")
+				p := flags.NewParser(&o, flags.None)
+				p.CompletionHandler = func(its []flags.Completion) {
+					for _, it := range its {
+						items = append(items, it.Item)
+					}
+				}
+				p.ParseArgs(args)
+			})
+			os.Unsetenv("GO_FLAGS_COMPLETION")
+			c.R.Evaluations++
+			var wantL []string
+			for _, w := range want {
+				wantL = append(wantL, prefix[label]+w)
+			}
+			sort.Strings(wantL)
+			got := fmt.Sprintf("panic=%v %q", pan, items)
+			wantS := fmt.Sprintf("panic=<nil> %q", wantL)
+			c.Distinct("c18validated|" + label + "|" + partial)
+			c.Class("c18/validated-completer: " + label)
+			in := map[string]interface{}{"declaration": "Ep exEndpointV `short:\"e\" long:\"endpoint\"` — the type implements Completer (alpha:, alpha:443, alpha:80, -local:1, beta:22) and ValueValidator (host:port with a port)", "args": args}
+			c.Check("a-partial-option-value-yields-exactly-the-type's-completions", got == wantS, "C18:validated-completer", in, got, wantS)
+		}
+	}
+}
+
+// checkC19SetupErrorKept: a faulty declaration handed to NewParser (malformed tag, short name of two characters, a
+// default on a boolean flag, a name used twice) is reported by every later Parse — also after the program added a
+// well-formed group or command to the parser.
+func checkC19SetupErrorKept(c *Ctx, n int) {
+	r := c.Rng
+	type badTag struct {
+		V bool `long:"verbose`
+	}
+	type badShort struct {
+		V bool `short:"vv"`
+	}
+	type badDefault struct {
+		V bool `long:"verbose" default:"true"`
+	}
+	type badDup struct {
+		A bool `long:"same"`
+		B bool `long:"same"`
+	}
+	type good struct {
+		X bool `long:"x"`
+	}
+	for i := 0; i < n; i++ {
+		which := r.Intn(4)
+		var data interface{}
+		var wantType flags.ErrorType
+		switch which {
+		case 0:
+			data, wantType = &badTag{}, flags.ErrTag
+		case 1:
+			data, wantType = &badShort{}, flags.ErrShortNameTooLong
+		case 2:
+			data, wantType = &badDefault{}, flags.ErrInvalidTag
+		case 3:
+			data, wantType = &badDup{}, flags.ErrDuplicatedFlag
+		}
+		then := r.Intn(3)
+		var err error
+		pan := safe(func() {
+			p := flags.NewParser(data, flags.None)
+			switch then {
+			case 1:
+				p.AddGroup("More", "", &good{})
+			case 2:
+				p.AddCommand("run", "run", "", &good{})
+			}
+			_, err = p.ParseArgs([]string{})
+		})
+		c.R.Evaluations++
+		fe, ok := err.(*flags.Error)
+		got := fmt.Sprintf("panic=%v typed=%v", pan, ok && fe.Type == wantType)
+		c.Distinct(fmt.Sprintf("c19setup|%d|%d", which, then))
+		c.Class(fmt.Sprintf("c19/setup-error-kept: fault=%d then=%d", which, then))
+		in := map[string]interface{}{"fault": []string{"malformed tag", "short name vv", "default on a boolean flag", "long name used twice"}[which], "then": []string{"nothing", "p.AddGroup(well-formed)", "p.AddCommand(well-formed)"}[then], "error": fmt.Sprint(err)}
+		c.Check("a-faulty-declaration-is-reported-when-the-parser-is-used", got == "panic=<nil> typed=true", "C19:setup-error-kept", in, got, fmt.Sprintf("*flags.Error of type %d", int(wantType)))
+	}
+}
